@@ -188,6 +188,35 @@ func init() {
 		}
 		return Resp{"leading_b64": b64(lead), "ndocs": 1, "first_b64": b64(buf.String())}, nil
 	})
+	// c05docs: {input|input_b64} -> {leading_b64, docs_b64: [each document encoded on its own by yq's YAML encoder, unwrap off]}
+	register("c05docs", func(r Req) (Resp, error) {
+		dec := yqlib.NewYamlDecoder(yqlib.NewDefaultYamlPreferences())
+		if err := dec.Init(strings.NewReader(r.Text("input"))); err != nil {
+			return nil, err
+		}
+		p2 := yqlib.NewDefaultYamlPreferences()
+		p2.UnwrapScalar = false
+		var docs []string
+		lead := ""
+		for {
+			n, err := dec.Decode()
+			if err == io.EOF {
+				break
+			}
+			if err != nil {
+				return Resp{"docs_b64": docs}, err
+			}
+			if len(docs) == 0 {
+				lead = n.LeadingContent
+			}
+			var buf bytes.Buffer
+			if e := yqlib.NewYamlEncoder(p2).Encode(&buf, n); e != nil {
+				return Resp{"docs_b64": docs}, e
+			}
+			docs = append(docs, b64(buf.String()))
+		}
+		return Resp{"leading_b64": b64(lead), "docs_b64": docs}, nil
+	})
 	// c05print: {content|content_b64} -> {out_b64}
 	register("c05print", func(r Req) (Resp, error) {
 		var buf bytes.Buffer
